@@ -972,7 +972,18 @@ func (g *pgProgGen) expr(t *pgTy, e *pgGenv, size int, allowLet bool) *pgNode {
 			if size >= 5 {
 				return g.chain(t, e, size)
 			}
-		case c < 19:
+		case c < 23:
+			// an impure call inside a capturing closure nested in a closure that is a folding candidate
+			if size >= 12 && t.K == "int" {
+				n := g.impureNested(e)
+				if g.chance(0.5) {
+					// ... combined with something that depends on the variables
+					n = g.guard(n, t, e, false)
+					return pgNOp(g.oneOf([]string{"+", "-", "*"}), n, g.expr(pgTInt, e, max(size-n.Count()-1, 1), false))
+				}
+				return g.guard(n, t, e, allowLet)
+			}
+		case c < 26:
 			// a pure built-in failing on constants must stay in the program (the fold is dropped, not replaced)
 			if size >= 4 {
 				var bad *pgNode
@@ -1862,6 +1873,58 @@ func (g *pgProgGen) chain(t *pgTy, e *pgGenv, size int) *pgNode {
 	return pgChainShape(g.pick(3), op, pgConstOf(k1, v), pgConstOf(k2, v+1), g.expr(g.randomType(1), e, xs, false))
 }
 
+// pgImpureNested: an outer closure WITHOUT outer references (a folding candidate for the optimizer)
+// whose body calls, or hands to a method, an inner closure that captures the outer parameter and
+// contains an impure call (tick); the outer closure is applied to constants.  form selects how:
+//
+//	0 direct   let f = x -> (y -> tick(k, x*10 + y))(2); f(1)
+//	1 map      [1, 2].map(x -> (y -> tick(k, x*10 + y))(3)).sum()
+//	2 field    {f: x -> (y -> tick(k, x*10 + y))(2)}.f(1)
+//	3 curry    (x -> y -> tick(k, x*10 + y))(1)(2)
+//	4 depth 3  (x -> (y -> (z -> tick(k, x*100 + y*10 + z))(3))(2))(1)
+//	5 method   (x -> [1, 2].mapReduce(0, (acc, y) -> tick(k, acc + x*y)))(3)
+//	6 recursive func inside: (a -> func g(n) if n <= 0 then 0 else (y -> tick(k, n*10 + y))(1) + g(n - 1); g(a))(2)
+//
+// k is the tick id; names are the closure parameters to use (4 pairwise different names)
+func pgImpureNested(form int, k int64, ns []string, c1, c2, c3 int64) *pgNode {
+	x, y, z, f := ns[0], ns[1], ns[2], ns[3]
+	tick := func(e *pgNode) *pgNode { return pgNCall("static", pgNId("tick"), pgNInt(k), e) }
+	xy := func() *pgNode { return pgNOp("+", pgNOp("*", pgNId(x), pgNInt(10)), pgNId(y)) }
+	inner := func() *pgNode { return pgNClo([]string{y}, tick(xy())) }
+	switch form % 7 {
+	case 0:
+		return pgNLet(f, pgNClo([]string{x}, pgNCall("closure", inner(), pgNInt(c2))), pgNCall("closure", pgNId(f), pgNInt(c1)))
+	case 1:
+		return pgNMethod("method", pgNMethod("method", pgNList(pgNInt(c1), pgNInt(c2)), "map", pgNClo([]string{x}, pgNCall("closure", inner(), pgNInt(c3)))), "sum")
+	case 2:
+		return pgNMethod("mapfield", pgNMap([]string{"f"}, []*pgNode{pgNClo([]string{x}, pgNCall("closure", inner(), pgNInt(c2)))}), "f", pgNInt(c1))
+	case 3:
+		return pgNCall("closure", pgNCall("closure", pgNClo([]string{x}, inner()), pgNInt(c1)), pgNInt(c2))
+	case 4:
+		body := tick(pgNOp("+", pgNOp("+", pgNOp("*", pgNId(x), pgNInt(100)), pgNOp("*", pgNId(y), pgNInt(10))), pgNId(z)))
+		return pgNCall("closure", pgNClo([]string{x}, pgNCall("closure", pgNClo([]string{y}, pgNCall("closure", pgNClo([]string{z}, body), pgNInt(c3))), pgNInt(c2))), pgNInt(c1))
+	case 5:
+		cb := pgNClo([]string{z, y}, tick(pgNOp("+", pgNId(z), pgNOp("*", pgNId(x), pgNId(y)))))
+		return pgNCall("closure", pgNClo([]string{x}, pgNMethod("method", pgNList(pgNInt(c1), pgNInt(c2)), "mapReduce", pgNInt(0), cb)), pgNInt(c3))
+	}
+	rec := pgNIf(pgNOp("<=", pgNId(z), pgNInt(0)), pgNInt(0),
+		pgNOp("+", pgNCall("closure", pgNClo([]string{y}, tick(pgNOp("+", pgNOp("*", pgNId(z), pgNInt(10)), pgNId(y)))), pgNInt(c1)),
+			pgNCall("closure", pgNId(f), pgNOp("-", pgNId(z), pgNInt(1)))))
+	return pgNCall("closure", pgNClo([]string{x}, pgNFunc(f, []string{z}, rec, pgNCall("closure", pgNId(f), pgNId(x)))), pgNInt(2+c2%3))
+}
+
+func (g *pgProgGen) impureNested(e *pgGenv) *pgNode {
+	var ns []string
+	for len(ns) < 4 {
+		c := g.oneOf(pgNamePool)
+		if !pgContains(ns, c) {
+			ns = append(ns, c)
+		}
+	}
+	g.tickN++
+	return pgImpureNested(g.pick(7), int64(g.tickN), ns, int64(1+g.pick(4)), int64(1+g.pick(5)), int64(g.pick(4)))
+}
+
 // pgEraseTicks: the tree with every call tick(k, x) / ptick(k, x) replaced by x (for the specification side)
 func pgEraseTicks(n *pgNode) *pgNode {
 	if n.K == "call" && len(n.Kids) == 3 && n.Kids[0].K == "ident" && (n.Kids[0].Name == "tick" || n.Kids[0].Name == "ptick") {
@@ -2011,6 +2074,8 @@ func pgGenProgramMode(r *Rng, statics map[string]bool, maxNodes int, c02 bool) *
 		}
 		if tree != nil {
 			// the context-permutation shape at the root
+		} else if c02 && budget >= 24 && r.Chance(0.06) {
+			tree = pgNOp("+", g.guard(g.impureNested(env), pgTInt, env, false), g.expr(pgTInt, env, 4, false))
 		} else if c02 && r.Chance(0.2) {
 			tree = g.chain(g.scalarType(), env, budget)
 		} else if r.Chance(0.12) && budget >= 10 {
